@@ -33,6 +33,9 @@ type c06Case struct {
 	DynSrv   bool    // the handler uses dynamic messages
 	Reuse    bool    // the sender reuses one message object for all its sends
 	Early    bool    // unary only: the call is cancelled before the handler decodes the request (schedule point)
+	// Echo (streaming handlers): the first response is sent in the very object the handler's most recent receive
+	// filled in (an ack/echo handler), which the handler scribbles over as soon as the send has returned
+	Echo bool `json:",omitempty"`
 }
 
 func c06Cloner(name string) inprocgrpc.Cloner {
@@ -176,7 +179,16 @@ func propC06(c c06Case) *Outcome {
 		}
 		var obj interface{}
 		for j, s := range c.Resps {
-			if obj == nil || !c.Reuse {
+			echoed := false
+			if j == 0 && c.Echo && i > 0 {
+				// answer in the object just received (it is the handler's own; kept out of the later inspections)
+				mu.Lock()
+				obj = hReqObjs[len(hReqObjs)-1]
+				hReqObjs, hReqSnap = hReqObjs[:len(hReqObjs)-1], hReqSnap[:len(hReqSnap)-1]
+				mu.Unlock()
+				c06Overwrite(obj, s)
+				echoed = true
+			} else if obj == nil || !c.Reuse || (j == 1 && c.Echo) {
 				obj = newSrv(s)
 			} else {
 				c06Overwrite(obj, s)
@@ -186,7 +198,7 @@ func propC06(c c06Case) *Outcome {
 				return err
 			}
 			// the send has returned: the library must be done with our object
-			if c.Reuse {
+			if c.Reuse || echoed {
 				flipBytes(obj)
 			} else {
 				mu.Lock()
@@ -458,6 +470,12 @@ type c06Gate struct {
 }
 
 func genC06(t *rapid.T) c06Case {
+	c := genC06Base(t)
+	c.Echo = c.Kind != kUnary && !c.Early && rapid.IntRange(0, 3).Draw(t, "echo") == 0
+	return c
+}
+
+func genC06Base(t *rapid.T) c06Case {
 	c := c06Case{Cloner: rapid.SampledFrom([]string{"default", "default", "codec", "clonefunc", "copyfunc"}).Draw(t, "cloner"), Kind: rapid.SampledFrom(allKinds).Draw(t, "kind")}
 	nreq, nresp := 1, 1
 	if clientStreaming(c.Kind) {
@@ -515,7 +533,7 @@ func genC06(t *rapid.T) c06Case {
 
 func init() { registerReplay("C06", propC06) }
 
-const c06Rule = "rapid-generated in-process calls: cloner (default, CodecCloner, CloneFunc, CopyFunc) x RPC kind x message lists (bytes, maps, repeated Any, unknown fields) x generated or dynamic messages on either side x receive destinations pre-filled with another message x sender reusing (and immediately overwriting) one object for all sends x unary calls ended by cancellation before the handler decodes (schedule point unary.server.start: server held, call cancelled, Invoke returns, caller overwrites its request, server released); " +
+const c06Rule = "rapid-generated in-process calls: cloner (default, CodecCloner, CloneFunc, CopyFunc) x RPC kind x message lists (bytes, maps, repeated Any, unknown fields) x generated or dynamic messages on either side x receive destinations pre-filled with another message x sender reusing (and immediately overwriting) one object for all sends x streaming handlers answering in the very object their last receive filled in x unary calls ended by cancellation before the handler decodes (schedule point unary.server.start: server held, call cancelled, Invoke returns, caller overwrites its request, server released); " +
 	"oracle: received == sent exactly (pre-filled destinations overwritten), flipping every reachable byte of the sender's objects after the call leaves the receiver's unchanged and vice versa (requests and responses), a handler that decodes after Invoke returned sees the request as sent, never the caller's later content; " +
 	"also generated since the seeded rounds: empty messages re-filled by the sender, a unary call abandoned on cancellation whose caller then reuses request and response objects (the handler must still decode the request as sent; its late response must not be written into the caller's message); " +
 	"non-trivial = a message with >=2 populated reference-typed fields, or an early end; distinct by case hash"
